@@ -1,4 +1,4 @@
-"""C43 -- CpuSet set algebra (parsing and grouping are not decided by this machinery)."""
+"""C43 -- CpuSet set algebra, numeric token parsing and the per-atom grouping decision (the tokenising part of the parser is not decided)."""
 from driver import Unit
 import extract as X
 
@@ -50,4 +50,23 @@ def build(ctx):
                       defines={'LOOPINV': 'MEMBER(self, g_k) == (g_old_member || (g_k >= start && g_k < i))', 'KMAXCPU': kmax}))
     units.append(Unit('CpuSet::removeRange', 'cbmc', S, 'CpuSet_removeRange', loop_contracts=True, timeout=600, expect=[r'postcondition', r'loop_invariant|loop_step'],
                       defines={'LOOPINV': 'MEMBER(self, g_k) == (g_old_member && !(g_k >= start && g_k < i))', 'KMAXCPU': kmax}))
+    # grouping sentence: the per-atom decision of buildGroupsFromCacheTopology and the clamp in front of the loop
+    bg = r.function(F, r'std::vector<ThreadGroup>\s+buildGroupsFromCacheTopology\s*\([^)]*\)')
+    sl = X.slice_between(bg, r'const\s+int32_t\s+l2L3\s*=', r'pending\.insert\(pending\.end\(\),\s*l2\.cpus\.begin\(\),\s*l2\.cpus\.end\(\)\);', include_end=True)
+    ctx.emit('group_step.slice.inc', sl, must_fire=['R17'],
+             subs=[('R5', r'\bconst\s+', '', 'opt'),
+                   ('R17', r'l3IndexForCpu\(cpuToL3,\s*l2\.cpus\[0\]\)', 'l2L3_in', 1),
+                   ('R17', r'static_cast<int32_t>\(l2\.cpus\.size\(\)\)', 'l2Size_in', 1),
+                   ('R17', r'static_cast<int32_t>\(pending\.size\(\)\)', 'pendingSize'),
+                   ('R17', r'flushGroup\(pending,\s*result\);', '{ pendingSize = 0; known = -1; flushed++; }'),
+                   ('R17', r'pending\.insert\(pending\.end\(\),\s*l2\.cpus\.begin\(\),\s*l2\.cpus\.end\(\)\);',
+                    '{ pendingSize += l2Size; if (l2L3 >= 0) { if (known >= 0 && known != l2L3) mixed = 1; known = l2L3; } appended++; }', 1)])
+    sl = X.slice_between(bg, r'maxGroupSize\s*=\s*std::max\(', r'const\s+std::vector<int32_t>\s+cpuToL3')
+    ctx.emit('group_clamp.slice.inc', sl, must_fire=['R3'], subs=[('R3', r'std::max\(maxGroupSize,\s*largestGroupSize\(l2Groups\)\)', 'MAX_int32_t(maxGroupSize, largestL2)', 1)])
+    # the loop skips empty atoms and flushes once after the loop (checked textually: these two statements frame the slice)
+    if not re.search(r'if\s*\(l2\.cpus\.empty\(\)\)\s*\{\s*continue;\s*\}', bg.text) or not re.search(r'\}\s*flushGroup\(pending,\s*result\);\s*return\s+result;', bg.text):
+        raise X.ExtractionError('buildGroupsFromCacheTopology: empty-atom skip or the final flush changed')
+    GSPEC = 'specs/c43_groups.c'
+    units.append(Unit('buildGroupsFromCacheTopology.step', 'intwp', GSPEC, 'group_step', expect=[r'postcondition\.2'], timeout=120))
+    units.append(Unit('buildGroupsFromCacheTopology.clamp', 'intwp', GSPEC, 'group_clamp', expect=[r'postcondition\.1'], timeout=120))
     return units
